@@ -52,10 +52,17 @@ type Noise struct {
 	Prolog       bool // XML declaration variants / none
 	KidOrder     bool // (builder) child elements of different names interleaved
 	ExplicitZero bool // (builder) optional attributes with a zero value written out instead of omitted
+	// Namespaces: XML namespace declarations. One of: a default namespace on the root (every
+	// element is in it), every element name prefixed, some element names prefixed; plus
+	// attributes from other namespaces that a reader of OSM XML has to ignore
+	// (xsi:schemaLocation with xmlns:xsi, xml:lang, xml:space, xml:base). OSM attributes
+	// themselves are never put into a namespace and no foreign attribute has an OSM local name
+	// (Go's encoding/xml matches attributes by local name alone).
+	Namespaces bool
 }
 
 // NoiseNames lists the classes in a fixed order.
-var NoiseNames = []string{"attrorder", "space", "comments", "pis", "paired", "unkattrs", "unkkids", "charrefs", "cdata", "prolog", "kidorder", "explicitzero"}
+var NoiseNames = []string{"attrorder", "space", "comments", "pis", "paired", "unkattrs", "unkkids", "charrefs", "cdata", "prolog", "kidorder", "explicitzero", "namespaces"}
 
 // Set switches a class by name.
 func (n *Noise) Set(name string, v bool) {
@@ -84,6 +91,8 @@ func (n *Noise) Set(name string, v bool) {
 		n.KidOrder = v
 	case "explicitzero":
 		n.ExplicitZero = v
+	case "namespaces":
+		n.Namespaces = v
 	}
 }
 
@@ -115,6 +124,8 @@ type Renderer struct {
 	RawCDEnd bool
 	sb       strings.Builder
 	root     *Elem
+	nsMode   int // 0 none, 1 default namespace, 2 all names prefixed, 3 some names prefixed, 4 foreign attributes only
+	nsPrefix string
 }
 
 // NewRenderer returns a renderer.
@@ -138,6 +149,13 @@ func (w *Renderer) use(name string) { w.Used[name]++ }
 func (w *Renderer) Doc(root *Elem) string {
 	w.sb.Reset()
 	w.root = root
+	w.nsMode = 0
+	if w.N.Namespaces {
+		w.nsMode = 1 + w.R.Intn(4)
+		w.nsPrefix = w.R.PickS("o", "osm", "ns0", "OSM")
+		w.use("namespaces")
+		w.use([]string{"", "ns-default", "ns-prefix-all", "ns-prefix-some", "ns-foreign-attrs-only"}[w.nsMode])
+	}
 	if w.N.Prolog {
 		w.use("prolog")
 		switch w.R.Intn(6) {
@@ -322,10 +340,42 @@ func (w *Renderer) filler(parent *Elem, depth int) {
 	}
 }
 
+const osmNS = "http://openstreetmap.org/osm/0.6"
+
 func (w *Renderer) elem(e *Elem, depth int) {
 	sb := &w.sb
-	sb.WriteString("<" + e.Name)
+	qname := e.Name
+	if w.nsMode == 2 || (w.nsMode == 3 && w.R.Bool()) {
+		qname = w.nsPrefix + ":" + e.Name
+	}
+	sb.WriteString("<" + qname)
 	attrs := append([]Attr(nil), e.Attrs...)
+	if w.nsMode != 0 {
+		if e == w.root {
+			switch w.nsMode {
+			case 1:
+				attrs = append(attrs, Attr{"xmlns", osmNS})
+			case 2, 3:
+				attrs = append(attrs, Attr{"xmlns:" + w.nsPrefix, osmNS})
+			}
+			if w.nsMode == 4 || w.R.Bool() {
+				w.use("ns-foreign-attrs")
+				attrs = append(attrs, Attr{"xmlns:xsi", "http://www.w3.org/2001/XMLSchema-instance"},
+					Attr{w.R.PickS("xsi:schemaLocation", "xsi:noNamespaceSchemaLocation"), osmNS + " osm.xsd"})
+			}
+		}
+		if (w.nsMode == 4 || w.R.Chance(0.3)) && w.R.Chance(0.25) {
+			w.use("ns-foreign-attrs")
+			switch w.R.Intn(3) {
+			case 0:
+				attrs = append(attrs, Attr{"xml:lang", w.R.PickS("en", "de-DE", "")})
+			case 1:
+				attrs = append(attrs, Attr{"xml:space", w.R.PickS("preserve", "default")})
+			default:
+				attrs = append(attrs, Attr{"xml:base", "http://example.org/" + w.R.Word()})
+			}
+		}
+	}
 	if !e.Exact {
 		attrs = append(attrs, w.unknownAttrs(attrs)...)
 	}
@@ -369,7 +419,7 @@ func (w *Renderer) elem(e *Elem, depth int) {
 		}
 		sb.WriteString(">")
 		w.textContent(e.Text, e.Exact)
-		w.endTag(e)
+		w.endTag(qname)
 		return
 	}
 	if len(e.Kids) == 0 {
@@ -383,7 +433,7 @@ func (w *Renderer) elem(e *Elem, depth int) {
 		if w.R.Chance(0.5) && !e.Exact {
 			w.filler(e, depth+1)
 		}
-		w.endTag(e)
+		w.endTag(qname)
 		return
 	}
 	sb.WriteString(">")
@@ -392,11 +442,11 @@ func (w *Renderer) elem(e *Elem, depth int) {
 		w.elem(k, depth+1)
 	}
 	w.filler(e, depth)
-	w.endTag(e)
+	w.endTag(qname)
 }
 
-func (w *Renderer) endTag(e *Elem) {
-	w.sb.WriteString("</" + e.Name)
+func (w *Renderer) endTag(qname string) {
+	w.sb.WriteString("</" + qname)
 	if w.N.Space && w.R.Chance(0.2) {
 		w.sb.WriteString(w.ws(true))
 	}
